@@ -166,12 +166,15 @@ def FS.get (fs : FS) (l : Loc) : Option Node := if l = [] then some Node.dir els
 /-- where resolution of a path (or of a symlink target) starts -/
 def startLoc (cur : Loc) (p : Str) : Loc := if isabs p then [] else cur
 
-/-- Kernel path walk (path_resolution(7)).  `cur` is the current directory location, the list
-holds the remaining components of the path string split at '/'.  Every component (also "" and
-".") needs `cur` to be a directory (ENOTDIR otherwise); ".." moves to the parent (the root is its
-own parent); a name is looked up in `cur` (ENOENT); a symbolic link is followed unless it is the
-last component and `follow` is false: its target is walked (nested) from the directory holding
-the link, or from the root when the target is absolute; `fuel` bounds the nesting (ELOOP). -/
+/-- Kernel path walk (path_resolution(7), fs/namei.c).  `cur` is the current directory location, the
+list holds the components still to be walked (the path string split at '/').  Every component (also
+"" and ".") needs `cur` to be a directory (ENOTDIR otherwise); ".." moves to the parent (the root is
+its own parent); a name is looked up in `cur` (ENOENT); a symbolic link is followed unless it is the
+last component and `follow` is false: the components of its target are put IN FRONT of the remaining
+ones and walked from the directory holding the link, or from the root when the target is absolute.
+`fuel` is the number of symbolic links this ONE resolution may still follow: Linux counts every link
+followed during a path resolution, nested or one after the other (`nd->total_link_count`, limit
+MAXSYMLINKS = 40: the 41st link gives ELOOP); each followed link costs one. -/
 def walk (fs : FS) : Nat → Loc → List Str → Bool → Option Loc
   | _, cur, [], _ => some cur
   | fuel, cur, c :: rest, follow =>
@@ -187,10 +190,7 @@ def walk (fs : FS) : Nat → Loc → List Str → Bool → Option Loc
           else
             match fuel with
             | 0 => none
-            | fuel' + 1 =>
-              match walk fs fuel' (startLoc cur t) (splitSep t) true with
-              | none => none
-              | some l => walk fs (fuel' + 1) l rest follow
+            | fuel' + 1 => walk fs fuel' (startLoc cur t) (splitSep t ++ rest) follow
         | some _ => walk fs fuel (cur ++ [c]) rest follow
     | _ => none
 termination_by fuel _ comps _ => (fuel, comps.length)
@@ -309,12 +309,40 @@ def check2 (fs : FS) (kfuel fuel : Nat) (cwdS : Str) (cwd : Loc) (base loc : Str
   if hasNul base || hasNul loc then false
   else contained (realpath fs kfuel fuel cwdS cwd base) (realpath fs kfuel fuel cwdS cwd (tensorPath base loc))
 
-/-- Check 3 (_core.py:816-833, with D182): a failing stat skips it; `nlink > 1` raises; a file that
-is not regular raises. -/
+/-- what `os.path.samestat` compares (`st_ino`, `st_dev`): the inode of a regular file or of another
+non-directory object; a directory is identified by its location (a directory has one name; bind mounts
+are not modelled) -/
+inductive StatId where
+  | ino (i : Nat)
+  | dir (l : Loc)
+  deriving Repr, DecidableEq
+
+/-- the identity of what `os.stat(p)` reaches (None = OSError) -/
+def statId (fs : FS) (fuel : Nat) (cwd : Loc) (p : Str) : Option StatId :=
+  match kresolve fs fuel cwd p true with
+  | some l =>
+    match fs.get l with
+    | some (Node.file i) => some (StatId.ino i)
+    | some (Node.other i) => some (StatId.ino i)
+    | some Node.dir => some (StatId.dir l)
+    | _ => none
+  | none => none
+
+/-- Check 3 (`_check_path_containment`, "Check 3", with D182 and D451 / D452): `os.stat(path)` - the very
+string the `open` that follows uses - failing skips the layer (that open fails the same way); then the
+answer of `os.path.realpath` is cross-checked against the kernel: `samestat(stat(path), stat(path_real))`
+and `samestat(stat(base_dir), stat(base_real))`, a failing stat or a difference raises (fail closed);
+`nlink > 1` raises; a file that is not regular raises. -/
 def check3 (fs : FS) (kfuel fuel : Nat) (cwdS : Str) (cwd : Loc) (base loc : Str) : Bool :=
-  match statFile fs kfuel cwd (realpath fs kfuel fuel cwdS cwd (tensorPath base loc)) with
-  | some (n, reg) => decide (n ≤ 1) && reg
+  match statFile fs kfuel cwd (tensorPath base loc) with
   | none => true
+  | some (n, reg) =>
+    match statId fs kfuel cwd (tensorPath base loc),
+          statId fs kfuel cwd (realpath fs kfuel fuel cwdS cwd (tensorPath base loc)),
+          statId fs kfuel cwd base,
+          statId fs kfuel cwd (realpath fs kfuel fuel cwdS cwd base) with
+    | some a, some b, some c, some d => decide (a = b) && decide (c = d) && decide (n ≤ 1) && reg
+    | _, _, _, _ => false
 
 /-- `ExternalTensor._check_path_containment` (_core.py:760-825): the three layers in order. -/
 def checkContainment (fs : FS) (kfuel fuel : Nat) (cwdS : Str) (cwd : Loc) (base loc : Str) : Verdict :=
@@ -764,5 +792,145 @@ def expandAll : List WOp → List MOp
 def runWorld (kfuel fuel : Nat) (cwdS : Str) (cwd : Loc) (ps : Nat → TensorP) (w : World) (ops : List WOp) :
     List WLog :=
   runMicro kfuel fuel cwdS cwd ps w (expandAll ops)
+
+end IrVerif.Path
+
+/-! ## histories with `os.chdir` between the operations -/
+namespace IrVerif.Path
+
+/-- a micro operation, or `os.chdir(d)` (`cwdS` = what `os.getcwd()` returns afterwards) -/
+inductive CMOp where
+  | m (x : MOp)
+  | chdir (cwdS : Str)
+
+/-- run micro operations under a working directory that changes; every call is logged together with
+the working directory it was made in (the location it names is `comps cwdS`) -/
+def runMicroC (kfuel fuel : Nat) (ps : Nat → TensorP) : Str → World → List CMOp → List (Str × WLog)
+  | _, _, [] => []
+  | _, w, CMOp.chdir c :: xs => runMicroC kfuel fuel ps c w xs
+  | cwdS, w, CMOp.m x :: xs =>
+    let r := stepWorld kfuel fuel cwdS (comps cwdS) ps w x
+    match r.2 with
+    | some e => (cwdS, e) :: runMicroC kfuel fuel ps cwdS r.1 xs
+    | none => runMicroC kfuel fuel ps cwdS r.1 xs
+
+/-- a public operation, or `os.chdir` -/
+inductive COp where
+  | op (o : WOp)
+  | chdir (cwdS : Str)
+
+def expandAllC : List COp → List CMOp
+  | [] => []
+  | COp.op o :: os => o.expand.map CMOp.m ++ expandAllC os
+  | COp.chdir c :: os => CMOp.chdir c :: expandAllC os
+
+def runWorldC (kfuel fuel : Nat) (ps : Nat → TensorP) (cwdS : Str) (w : World) (ops : List COp) :
+    List (Str × WLog) :=
+  runMicroC kfuel fuel ps cwdS w (expandAllC ops)
+
+end IrVerif.Path
+
+/-! ## PATH_MAX at every path operation (as the code is: differential model, see D451 / D452) -/
+namespace IrVerif.Path
+
+/-- `os.lstat(p)` with Linux's PATH_MAX: a string of PATH_MAX bytes or more is refused (ENAMETOOLONG)
+before any lookup, whatever it names -/
+def lstatP (fs : FS) (kfuel : Nat) (cwd : Loc) (p : Str) : Option Node :=
+  if PATH_MAX ≤ p.length then none else lstat fs kfuel cwd p
+
+/-- `os.stat(p)` with PATH_MAX -/
+def statFileP (fs : FS) (kfuel : Nat) (cwd : Loc) (p : Str) : Option (Nat × Bool) :=
+  if PATH_MAX ≤ p.length then none else statFile fs kfuel cwd p
+
+/-- `_joinrealpath` as CPython runs it on Linux: `os.lstat(newpath)` is called on the RESOLVED prefix
+joined with the name; when that string has PATH_MAX bytes or more the call raises OSError, which the
+non-strict `realpath` swallows: the entry is taken to be a non-link (posixpath.py `except OSError:
+is_link = False`).  Otherwise identical to `joinReal`. -/
+def joinRealP (fs : FS) (kfuel : Nat) (cwd : Loc) : Nat → Str → List Str → Seen → Str × Bool × Seen
+  | _, path, [], seen => (path, true, seen)
+  | fuel, path, name :: rest, seen =>
+    if name = [] ∨ name = DOT then joinRealP fs kfuel cwd fuel path rest seen
+    else if name = DOTDOT then joinRealP fs kfuel cwd fuel (parentPath path) rest seen
+    else
+      let newpath := pjoin path name
+      match lstatP fs kfuel cwd newpath with
+      | some (Node.link target) =>
+        match Seen.find seen newpath with
+        | some (some p) => joinRealP fs kfuel cwd fuel p rest seen
+        | some none => (pjoin newpath (joinSep rest), false, seen)
+        | none =>
+          match fuel with
+          | 0 => (pjoin newpath (joinSep rest), false, seen)
+          | fuel' + 1 =>
+            let r := joinRealP fs kfuel cwd fuel' (if isabs target then ['/'] else path)
+              (splitSep (if isabs target then target.tail else target)) ((newpath, none) :: seen)
+            if r.2.1 = false then (pjoin r.1 (joinSep rest), false, r.2.2)
+            else joinRealP fs kfuel cwd (fuel' + 1) r.1 rest ((newpath, some r.1) :: r.2.2)
+      | _ => joinRealP fs kfuel cwd fuel newpath rest seen
+termination_by fuel _ rest _ => (fuel, rest.length)
+
+def realpathP (fs : FS) (kfuel fuel : Nat) (cwdS : Str) (cwd : Loc) (filename : Str) : Str :=
+  let r := joinRealP fs kfuel cwd fuel (if isabs filename then ['/'] else [])
+    (splitSep (if isabs filename then filename.tail else filename)) []
+  abspath cwdS r.1
+
+/-- `os.stat(p)` identity with PATH_MAX -/
+def statIdP (fs : FS) (kfuel : Nat) (cwd : Loc) (p : Str) : Option StatId :=
+  if PATH_MAX ≤ p.length then none else statId fs kfuel cwd p
+
+/-- `_check_path_containment` with PATH_MAX at every `os.lstat` / `os.stat` it makes -/
+def checkContainmentP (fs : FS) (kfuel fuel : Nat) (cwdS : Str) (cwd : Loc) (base loc : Str) : Verdict :=
+  if base = [] then Verdict.skipped
+  else if check1 cwdS base loc = false then Verdict.rej1
+  else if hasNul base || hasNul loc then Verdict.rej2
+  else if contained (realpathP fs kfuel fuel cwdS cwd base)
+      (realpathP fs kfuel fuel cwdS cwd (tensorPath base loc)) = false then Verdict.rej2
+  else
+    match statFileP fs kfuel cwd (tensorPath base loc) with
+    | none => Verdict.pass
+    | some (n, reg) =>
+      match statIdP fs kfuel cwd (tensorPath base loc),
+            statIdP fs kfuel cwd (realpathP fs kfuel fuel cwdS cwd (tensorPath base loc)),
+            statIdP fs kfuel cwd base,
+            statIdP fs kfuel cwd (realpathP fs kfuel fuel cwdS cwd base) with
+      | some a, some b, some c, some d =>
+        if decide (a = b) && decide (c = d) && decide (n ≤ 1) && reg then Verdict.pass else Verdict.rej3
+      | _, _, _, _ => Verdict.rej3
+
+/-- a read of an unmapped tensor through `tofile` (check, open, copy) with PATH_MAX everywhere:
+verdict, what the open reached, result -/
+def readP (fs : FS) (kfuel fuel : Nat) (cwdS : Str) (cwd : Loc) (base loc : Str) (offset length : Nat) :
+    ReadResult × List Ev :=
+  let v := checkContainmentP fs kfuel fuel cwdS cwd base loc
+  if rejecting v then (ReadResult.raised, [Ev.check v])
+  else
+    let p := tensorPath base loc
+    match openFile fs kfuel cwd p with
+    | none => (ReadResult.raised, [Ev.check v, Ev.openEv p none])
+    | some (i, _) =>
+      if 0 < length ∧ (fs.data i).length < offset + length then (ReadResult.raised, [Ev.check v, Ev.openEv p (some i)])
+      else (ReadResult.ok (sliceOf (fs.data i) offset length), [Ev.check v, Ev.openEv p (some i)])
+
+end IrVerif.Path
+
+/-! ## a LOCATION given as a bytes object -/
+namespace IrVerif.Path
+
+/-- One call on a tensor whose `location` is a `bytes` object (an `os.fsencode` spelling).
+`os.path.join(base_dir, location)` needs both of one kind: with a `str` / `os.PathLike[str]` base
+directory it raises TypeError the first time the path is needed; with a `bytes` base directory the
+join works and the path is a bytes object, but check 1 (`base_abs.endswith(os.sep)`, a str) raises
+TypeError.  So with a NON-EMPTY base directory of any type nothing is checked or opened and the call
+raises (only `tobytes` of a zero-size tensor, which never needs the path, returns).  With an EMPTY base
+directory the checks are off by design: `b""` + bytes location reads like `""` + str location; `""` +
+bytes location returns only where the path is not needed (zero-size, not `tofile`). -/
+def callTB (fs : FS) (kfuel fuel : Nat) (cwdS : Str) (cwd : Loc) (p : TensorP) (b : BaseVal)
+    (ep : EntryPoint) (st : TState) : ReadResult × List Ev × TState :=
+  if b.s = [] then
+    if b.kind = BaseKind.bytes then callT fs kfuel fuel cwdS cwd p { kind := BaseKind.str, s := [] } ep st
+    else if p.zero = true ∧ ep ≠ EntryPoint.tofile then
+      callT fs kfuel fuel cwdS cwd p { kind := BaseKind.str, s := [] } ep st
+    else (ReadResult.raised, [Ev.check Verdict.skipped], st)
+  else (if p.zero = true ∧ ep = EntryPoint.tobytes then ReadResult.ok [] else ReadResult.raised, [], st)
 
 end IrVerif.Path
